@@ -28,19 +28,32 @@ func c09Params(tier string) []*kvops.Params {
 		n, r  int
 		entry string
 		ttl   bool
+		table int
 	}
-	cfs := []cf{{2, 1, "EO", false}, {2, 1, "EN", false}, {2, 1, "CC", false}}
+	// the last configuration has 200-byte tables and a "fill" event (neighbour keys roll the
+	// partition on to another table): the key's entry sits in a sealed table when it is expired,
+	// re-expired, incremented or conditionally overwritten
+	cfs := []cf{{2, 1, "EO", false, 0}, {2, 1, "EN", false, 0}, {2, 1, "CC", false, 0}, {2, 2, "EN", false, 200}}
 	if !quick {
 		depth = 6
 		alpha = append(alpha, ev("put", 0, 0, "NX+PX"), ev("put", 0, 0, "XX+EX"), ev("decr", 0, 1, ""), ev("del", 0, 0, ""))
-		cfs = append(cfs, cf{3, 2, "EN", false}, cf{3, 2, "CC", false}, cf{2, 1, "RN", false}, cf{1, 1, "EO", true})
+		cfs = append(cfs, cf{3, 2, "EN", false, 0}, cf{3, 2, "CC", false, 0}, cf{2, 1, "RN", false, 0}, cf{1, 1, "EO", true, 0}, cf{2, 1, "EO", false, 200})
 	}
 	var out []*kvops.Params
 	for _, c := range cfs {
+		alpha := alpha
+		name := fmt.Sprintf("N=%d R=%d entry=%s defaultTTL=%v", c.n, c.r, c.entry, c.ttl)
+		if c.table != 0 {
+			alpha = append(append([]clustermc.Ev{}, alpha...), ev("fill", 0, 0, ""))
+			name += fmt.Sprintf(" table=%d", c.table)
+		}
 		p := &kvops.Params{
-			Name:  fmt.Sprintf("N=%d R=%d entry=%s defaultTTL=%v", c.n, c.r, c.entry, c.ttl),
-			Opts:  simcluster.Opts{N: c.n, Replicas: c.r, WriteQ: 1, ReadQ: 1, Partitions: 7},
+			Name:  name,
+			Opts:  simcluster.Opts{N: c.n, Replicas: c.r, WriteQ: 1, ReadQ: 1, Partitions: 7, TableSize: c.table},
 			Entry: c.entry, DMap: "d", Keys: []string{"k"}, Alpha: alpha, Depth: depth, Visible: true,
+		}
+		if c.table != 0 {
+			p.Depth = depth - 1 // the table layout is part of the state: one level less keeps the tier's time
 		}
 		if c.ttl {
 			p.DefaultTTL = 2500 * 1e6
@@ -70,7 +83,7 @@ func init() {
 			perSpec = 1500
 		}
 		for _, p := range c09Params(c.Tier) {
-			if (p.Entry == "EO" || p.Entry == "EN" || p.Entry == "CC") && p.DefaultTTL == 0 {
+			if (p.Entry == "EO" || p.Entry == "EN" || p.Entry == "CC") && p.DefaultTTL == 0 && p.Opts.TableSize == 0 {
 				traces = append(traces, kvops.ConformTraces(p, 3, perSpec)...)
 			}
 		}
